@@ -240,6 +240,9 @@ def run_case(spec):
                     except Exception:
                         pass
                     key += ";sym=" + ("rank_change" if ranks is None or any(p != q for p, q in ranks) else "dim_change")
+                    if key.endswith("dim_change"):
+                        # two UNNAMED dims are not known to be equal; the rules' handling of them is a listed defect of its own
+                        key += ";dims=" + ("anonymous" if any(str(k).startswith("?") for k in b) else "named")
                 if key in reported:
                     continue
                 reported.add(key)
